@@ -6,6 +6,12 @@ P = "graphql.language.print_location"
 
 
 def install(w):
+    # a copied token (copy / deepcopy of an AST or of a schema with AST nodes) reports the same
+    # offsets, line and column as the original
+    w.contract("graphql.language.ast.Token.__copy__", returns="obj:Token",
+               ensures=["result.start == self.start", "result.end == self.end", "result.line == self.line",
+                        "result.column == self.column", "result.kind == self.kind"],
+               raises=[], modifies=[], props={"C10"})
     w.alias("Location", "graphql.language.ast.Location")
     w.shape("Location", start="int", end="int", source="obj:Source",
             start_token="obj:Token", end_token="obj:Token")
